@@ -140,6 +140,17 @@ func matrix(specs []srvSpec) []cell {
 		if !sp.HTTPS {
 			continue
 		}
+		if sp.AltSvc && !sp.H3 {
+			// h3 advertised, nobody listening: behaviour depends on time once quic-go's handshake timeout
+			// (5 s) is near; keep to short sequences that stay well inside it (client timeout 1.5 s)
+			for _, setter := range []string{"mut", "set", "set-np"} {
+				for _, f := range []int{0, 1, 2} {
+					cells = append(cells, cell{Shape: fmt.Sprintf("deadadvert-f%d-%s", f, setter), Spec: sp,
+						Ops: cat(tlsOps(setter, tlsSettings[1].T, nil), protoOps(f, true, true), reqs(3))})
+				}
+			}
+			continue
+		}
 		for force := 0; force <= 3; force++ {
 			for _, h3 := range []bool{false, true} {
 				if force == 3 && !h3 {
@@ -172,6 +183,29 @@ func matrix(specs []srvSpec) []cell {
 								Spec:  sp, Ops: ops})
 						}
 					}
+				}
+			}
+		}
+	}
+	// https origins with a client on which EnableH2C() was called (h2c concerns plain http only: https
+	// requests must still be TLS-protected and governed by the client's settings)
+	for _, sp := range specs {
+		if !sp.HTTPS || sp.NeedCert || sp.AltSvc != sp.H3 {
+			continue
+		}
+		for force := 0; force <= 3; force++ {
+			for _, ts := range []tlsSetting{tlsSettings[1], tlsSettings[2], tlsSettings[3]} {
+				for _, h2c := range []string{"on", "on-off", "on-clone"} {
+					pre := []op{{K: "h2c", B: true}}
+					if h2c == "on-off" {
+						pre = append(pre, op{K: "h2c", B: false})
+					}
+					ops := cat(tlsOps("mut", ts.T, nil), pre, protoOps(force, false, true))
+					if h2c == "on-clone" {
+						ops = cat(ops, []op{{K: "clone"}})
+					}
+					ops = cat(ops, reqs(2))
+					cells = append(cells, cell{Shape: fmt.Sprintf("https-h2c-f%d-%s-%s", force, ts.Name, h2c), Spec: sp, Ops: ops})
 				}
 			}
 		}
@@ -243,7 +277,7 @@ func randomWalk(rng *hk.Rand, specs []srvSpec) cell {
 			ts := hk.Pick(rng, tlsSettings)
 			ops = append(ops, tlsOps(hk.Pick(rng, []string{"set", "set-np"}), ts.T, nil)...)
 		default:
-			if !sp.HTTPS {
+			if !sp.HTTPS || rng.Chance(30) {
 				ops = append(ops, op{K: "h2c", B: rng.Bool()})
 			} else {
 				ops = append(ops, op{K: "req"})
@@ -335,6 +369,11 @@ func run(r *hk.Run) {
 			for i := 0; i < nFast; i++ {
 				cells = append(cells, fast[rng.Intn(len(fast))])
 			}
+			for _, c := range fast {
+				if strings.HasPrefix(c.Shape, "https-h2c-") && rng.Chance(12) {
+					cells = append(cells, c)
+				}
+			}
 			for i := 0; i < nSlow; i++ {
 				cells = append(cells, slow[rng.Intn(len(slow))])
 			}
@@ -348,9 +387,6 @@ func run(r *hk.Run) {
 			}
 			for i := 0; i < 3000; i++ {
 				cells = append(cells, randomWalk(rng, fastSpecs))
-			}
-			for i := 0; i < 20; i++ {
-				cells = append(cells, randomWalk(rng, specs))
 			}
 		}
 	}
@@ -387,7 +423,7 @@ func run(r *hk.Run) {
 				}
 				timeout := 8 * time.Second
 				if slowCell(cl) {
-					timeout = 2500 * time.Millisecond
+					timeout = 1500 * time.Millisecond
 				}
 				var res cellResult
 				for attempt := 0; attempt < 3; attempt++ {
